@@ -92,6 +92,10 @@ pub struct Plan {
     /// buffer, long after the stream's first output)
     #[serde(default)]
     pub late_bursts: u32,
+    /// the first task writes its first stdout line, stays silent for this long (ms), then goes on;
+    /// with the other members of its group done by then, the whole run is quiet in between
+    #[serde(default)]
+    pub quiet_ms: u64,
 }
 
 #[derive(Debug, Clone, Serialize, Deserialize)]
@@ -130,6 +134,7 @@ pub fn plan(max_layer: usize, chatty: bool) -> impl Strategy<Value = Plan> {
             bursts,
             long_lines,
             late_bursts,
+            quiet_ms: 0,
         })
 }
 
@@ -277,6 +282,9 @@ pub fn install(env: &Env, plan: &Plan, tag_lines: bool) -> Setup {
                     } else {
                         v.push(Step::W(bytes));
                     }
+                    if plan.quiet_ms > 0 && task_no == 0 && j == 0 && stream == "stdout" {
+                        v.push(Step::P(plan.quiet_ms));
+                    }
                     if pause > 0 {
                         v.push(Step::P(pause));
                     }
@@ -291,6 +299,7 @@ pub fn install(env: &Env, plan: &Plan, tag_lines: bool) -> Setup {
                 }
                 v
             };
+            let no = if plan.quiet_ms > 0 && task_no == 0 { no.max(2) } else { no };
             let out = mk("stdout", no, allow_unterminated && plan.unterminated >> ((2 * task_no) % 32) & 1 == 1);
             let err = mk("stderr", ne, allow_unterminated && plan.unterminated >> ((2 * task_no + 1) % 32) & 1 == 1);
             let exit = match plan.fail {
@@ -612,6 +621,32 @@ pub fn strategy_c20(max_layer: usize) -> impl Strategy<Value = TailCase> {
     })
 }
 
+/// Runs that are silent for several seconds while a task is still working (nothing reaches the
+/// listener in between), then go on writing; a second group follows.
+pub fn quiet_cases(thorough: bool) -> Vec<TailCase> {
+    let gaps: &[u64] = if thorough { &[6_200, 11_000, 16_000, 31_000, 61_000] } else { &[6_200, 11_000] };
+    gaps.iter()
+        .map(|&g| TailCase {
+            plan: Plan {
+                layers: vec![2, 1],
+                picks: vec![0, 1, 2, 3, 4, 5, 6, 7],
+                ncmd: 1,
+                tasks: vec![(3, 2, 0), (2, 2, 0), (2, 1, 0)],
+                fail: None,
+                unterminated: 0,
+                split_lines: 0,
+                bursts: 0,
+                long_lines: 0,
+                late_bursts: 0,
+                quiet_ms: g,
+            },
+            filters: Filters { stdout: true, stderr: true, targets: vec![], commands: vec![] },
+            tokio_workers: 2,
+            lock_delay_ms: 0,
+        })
+        .collect()
+}
+
 pub fn check_c20(case: &TailCase, w: usize) -> CheckResult {
     let mut env = Env::new(w);
     env.extra_env.push(("TOKIO_WORKER_THREADS".into(), case.tokio_workers.to_string()));
@@ -773,6 +808,7 @@ pub fn check_c20(case: &TailCase, w: usize) -> CheckResult {
         .class_if(run.failed, "a-task-failed-and-cancelled-its-siblings")
         .class_if(case.lock_delay_ms > 0, "delay-inside-the-connection-lock")
         .class_if(case.lock_delay_ms >= 500, "connection-held-longer-than-the-flush-interval")
+        .class_if(case.plan.quiet_ms > 0, "run-silent-for-several-seconds")
         .class(&format!("tokio-workers={}", case.tokio_workers))
         .inv(env.invocations))
 }
@@ -802,6 +838,12 @@ admitted non-empty log. non-trivial = a group of >= 4 tasks and a filter that ex
     let n = ctx.n(60, 1200);
     let max_layer = if ctx.thorough() { 24 } else { 8 };
     ctx.drive("tail", || strategy_c20(max_layer), n, check_c20);
+    ctx.drive_all(
+        "quiet-period",
+        quiet_cases(ctx.thorough()),
+        "runs whose only working task is silent for 6.2 / 11 s (thorough: up to 61 s) between two lines, followed by a second group",
+        check_c20,
+    );
 }
 
 pub fn replay_c15(ctx: &Ctx, label: &str, case: Value) -> Result<(), String> {
